@@ -25,6 +25,7 @@ func caseGen() *rapid.Generator[Case] {
 	sg := gen.ScriptGen(gen.ScriptOpts{
 		Item:        item(),
 		AllowMutate: true,
+		AllowCopy:   true,
 		MinOps:      1,
 		MaxOps:      max,
 		MaxCells:    5,
